@@ -36,7 +36,7 @@ def gtext(s):
     return parts[0] if len(parts) == 1 and parts[0].startswith('[') else '(' + ' ++ '.join(parts) + ')'
 
 THEOREMS = ['C17_defaults_safe', 'C17_no_external', 'C17_world_independent', 'C17_tree_verbatim',
-            'C17_rejections_are_client_faults', 'C17_depth_bounded', 'C17_attr_expansion_bounded',
+            'C17_rejections_are_client_faults', 'C17_depth_bounded',
             'C17_swa_safe', 'C17_no_entity_expansion_refuted', 'C17_safe_clauses_needed']
 
 # ------------------------------------------------------------------ vocabulary shared with the model
